@@ -164,6 +164,12 @@ def evaluate(res, ctx, name, ops, recs, err, rc, check_model=True, pid="C03", cl
             extra = dict(EXTRA_KEY)
             expect2 = dict(states[j])
             expect2.update(extra)
+            if "c2open" in im:
+                res.count("second_crash_images")
+                if im["c2open"] != "ok" or im.get("c2dump") != fmt_state(expect2):
+                    res.violation(what + ": after recovery, one more Put and a batch, a SECOND process death (no Close): Open -> %s, mapping %s, expected %s" % (
+                        im["c2open"], str(im.get("c2dump"))[:200], fmt_state(expect2)[:200]), replay, key=key)
+                    continue
             if im.get("victim"):
                 expect2.pop(bytes.fromhex(im["victim"]) if im["victim"] != "-" else b"", None)
                 if im.get("del") != "ok" or im.get("merge", "").split(" ")[0] not in ("ok", "err:mergeids"):
